@@ -11,7 +11,7 @@ RULE = ("every source the REAL front end accepts - generated well-formed program
         "of that bytecode; the same sources run under the safety probes (pop on empty stack, fetch/operand outside "
         "the code, invalid builtin) and are compared with Compiler.v/VM.v. non-trivial = distinct accepted source "
         "whose bytecode is longer than 4 bytes")
-ASSUMPTIONS = ["compile_certifies (the compiler only emits verifiable code, for all programs) is not yet a theorem: acceptance is established per program on the real bytecode",
+ASSUMPTIONS = ["end to end: compile_certifies + verify_sound give accepted_program_never_leaves_memory for every source text OF THE MODEL; the implementation is tied to the model per program (real bytecode re-verified by Verify.v inside Coq, byte-identical to Compiler.v's)",
                "the tie between VM.v and vm.rs is the step-count-exact correspondence of whole runs"]
 NOTES = ["proved: verify_sound, run_never_leaves_memory, inv_initial, verified_program_never_leaves_memory (all bytecode, all certificates, all states)"]
 
